@@ -14,6 +14,8 @@ Tie:   (S) scripted answers at both seams: objective_value, values (keys and ord
 from __future__ import annotations
 
 import itertools
+import os
+import sys
 import random
 import warnings
 import numpy as np
@@ -133,9 +135,10 @@ def run(rep: vk.Report):
                        "witness": cases.meta[i]}, concrete=True)
 
     # ---- real solves: objective_value within the enclosure of the objective at the reported values
-    n_real = 60 if rep.tier == "quick" else 2500
+    n_real = 150 if rep.tier == "quick" else 2500
     nums, nmeta = [], []
     hist_count = {}
+    far_points = 0
     from optyx.solution import SolverStatus
     for i in range(n_real):
         r = random.Random(rng.random())
@@ -155,7 +158,8 @@ def run(rep: vk.Report):
                 dead = gen.Variable(r.choice(["zz_dead", "a_dead"]))
                 obj = r.choice([lambda: obj + 0 * dead, lambda: obj + (dead - dead), lambda: 0.0 * dead + obj])()
         elif kind == "qp":
-            obj = ((x - r.choice([0.5, 1, -1])) ** 2).sum() + const + g.coeffs(x.size) @ x
+            # centres 5 / -4 lie outside the box [-2, 3]: a method that never sees the bounds ends outside it, a bound-aware one on it
+            obj = ((x - r.choice([0.5, 1, -1, 5, -4])) ** 2).sum() + const + g.coeffs(x.size) @ x
         else:
             obj = gen.FN["exp"](x * 0.5).sum() + ((x) ** 2).sum() + const
         mx = r.random() < 0.5
@@ -163,8 +167,15 @@ def run(rep: vk.Report):
         for v in x:
             v.lb, v.ub = -2.0, 3.0
         (P.maximize if mx else P.minimize)(-obj if mx else obj)
-        P.subject_to(x.sum() <= 4)
-        meth = r.choice(["auto", "SLSQP", "trust-constr"]) if kind != "lp" else r.choice(["auto", "highs", "SLSQP"])
+        # every method the wrapper accepts: constrained ones with a constraint, the others (bounded or not, derivative-free or not) without
+        if kind != "lp" and r.random() < 0.5:
+            meth = r.choice(["L-BFGS-B", "TNC", "Nelder-Mead", "Powell", "BFGS", "CG", "COBYLA", "Newton-CG", "trust-ncg", "trust-exact", "dogleg",
+                             "trust-krylov", "COBYQA"])
+            if meth in ("COBYLA", "COBYQA") and r.random() < 0.5:
+                P.subject_to(x.sum() <= 4)
+        else:
+            P.subject_to(x.sum() <= 4)
+            meth = r.choice(["auto", "SLSQP", "trust-constr"]) if kind != "lp" else r.choice(["auto", "highs", "SLSQP"])
         # a short history on the same Problem: every solve's report is checked, not only the first
         steps = ["solve"]
         for _ in range(r.randint(0, 2)):
@@ -188,11 +199,16 @@ def run(rep: vk.Report):
                     pass
             with warnings.catch_warnings():
                 warnings.simplefilter("ignore")
+                import time as _t
+                t0_ = _t.time()
                 try:
                     sol = P.solve(method=meth)
                 except Exception:
                     break
+                if os.environ.get("VERIF_DEBUG_C07") and _t.time() - t0_ > 2:
+                    print("SLOW", meth, kind, step, cur_mx, round(_t.time() - t0_, 1), sol.status.value, file=sys.stderr)
             hist_count[step] = hist_count.get(step, 0) + 1
+            hist_count["method:" + meth + ":" + sol.status.value] = hist_count.get("method:" + meth + ":" + sol.status.value, 0) + 1
             if sol.values and sol.status in (SolverStatus.OPTIMAL,):
                 want_names = [v.name for v in P.variables]
                 if sorted(sol.values) != sorted(want_names):
@@ -208,6 +224,19 @@ def run(rep: vk.Report):
                                        "witness": {"objective": repr(P.objective)[:300], "method": meth, "variable": dead.name, "error": repr(ex)[:200]}},
                                       concrete=True)
             if sol.objective_value is None or not sol.values or not np.isfinite(sol.objective_value):
+                continue
+            far = max(abs(float(t_)) for t_ in sol.values.values()) > 64.0 or abs(sol.objective_value) > 1e9
+            if far:
+                # a method that never sees the bounds may run far away on an unbounded flip: the enclosure of exp / powers at such points
+                # costs minutes of exact arithmetic, so THERE the report is compared with the tree's own evaluation in floating point
+                far_points += 1
+                with np.errstate(all="ignore"):
+                    rec_ = common.fval(P.objective.evaluate(sol.values))
+                if rec_ is not None and abs(rec_ - sol.objective_value) > 1e-9 * max(1.0, abs(rec_)):
+                    rep.violation({"kind": "numeric", "obligation": "objective_value = objective at the returned values (far point, floating-point comparison)",
+                                   "witness": {"objective": repr(P.objective)[:300], "maximize": cur_mx, "method": meth, "history": list(steps),
+                                               "status": sol.status.value, "reported": sol.objective_value, "recomputed": rec_, "values": sol.values}},
+                                  concrete=True)
                 continue
             S = ser.Ser()
             te = S.expr(P.objective)
@@ -306,6 +335,7 @@ def run(rep: vk.Report):
     cov["lp_cost_dtype_sweep"] = sweep
     cov["parameter_resolves"] = param_resolves
     cov["real_solves"] = len(nums)
+    cov["real_solves_far_from_the_box_compared_in_floating_point"] = far_points
     cov["history_steps"] = hist_count
     cov["real_undecided"] = len(nund)
     cov["correspondence_failures"] = len(fails) + len(nfails)
